@@ -35,6 +35,7 @@ Definition out_eqb (a b : out) : bool :=
   | OKw x, OKw y => forallb2 kwarg_eqb x y
   | OCl x, OCl y => forallb2 pclass_eqb x y
   | OErr x, OErr y => err_eqb x y
+  | OPipes x, OPipes y => forallb2 (fun a b => pclass_eqb (fst a) (fst b) && kwarg_eqb (snd a) (snd b)) x y
   | _, _ => false
   end.
 
@@ -64,10 +65,11 @@ Definition check_pc (p : pc_params) (ops : list pc_op) (expected : list out) : Z
   | Err e => first_diff 1 [OErr e] expected
   end.
 
-(* filters: (min_wavelength, max_wavelength, window) of the implementation's filter object *)
-Definition filter_eqb (f : res pfilter) (impl : res (Q * Q * Q)) : bool :=
+(* filters: (min_wavelength, max_wavelength, window, central_wavelength) of the implementation's filter object *)
+Definition filter_eqb (f : res pfilter) (impl : res (Q * Q * Q * Q)) : bool :=
   match f, impl with
-  | Ok f, Ok (mn, mx, w) => Qeq_bool (f_min f) mn && Qeq_bool (f_max f) mx && Qeq_bool (f_window f) w
+  | Ok f, Ok (mn, mx, w, ce) => Qeq_bool (f_min f) mn && Qeq_bool (f_max f) mx && Qeq_bool (f_window f) w
+                                && Qeq_bool (f_central f) ce
   | Err e, Err e' => err_eqb e e'
   | _, _ => false
   end.
@@ -133,13 +135,15 @@ Definition cal_eqb (m : res (list (list Q))) (impl : res (list (list Q))) : bool
 
 (* the instrument's range comes from the model of the Spectrometer; xs, ys = bin centres and samples
    of the raysect Spectrum, smin/smax its range *)
-Definition check_cal (p : sp_params) (smin smax : Q) (xs ys : list Q) (impl : res (list (list Q))) : bool :=
+Definition check_cal_arg (p : sp_params) (a : cal_arg) (impl : res (list (list Q))) : bool :=
   match sp_construct round53 p with
   | Ok s =>
     match d_min (v_d (sp_view round53 s)), d_max (v_d (sp_view round53 s)) with
-    | Some (Fin mn), Some (Fin mx) =>
-      cal_eqb (calibrate (pl_integral_red xs ys) mn mx smin smax (sp_w2p s)) impl
+    | Some (Fin mn), Some (Fin mx) => cal_eqb (calibrate_call pl_integral_red mn mx (sp_w2p s) a) impl
     | _, _ => false
     end
   | Err _ => false
   end.
+
+Definition check_cal (p : sp_params) (smin smax : Q) (xs ys : list Q) (impl : res (list (list Q))) : bool :=
+  check_cal_arg p (ASpectrum smin smax xs ys) impl.
